@@ -19,3 +19,48 @@ fn multiclass_scope_does_not_leak() {
     let n = d.get(&ids[0]).map(|v| v.len()).unwrap_or(0);
     assert!(n >= 1, "expected a `symbol not found` diagnostic");
 }
+
+// ---- lookup order (from the property statement): the innermost declaration wins; in a scope variables, then fields, then template
+// ---- arguments; global defs last; a name used after its construct has ended does not resolve to it
+/// go-to-definition on the LAST occurrence of `use_text`; returns the start offset of the target
+fn def_of(text: &str, use_text: &str) -> Option<usize> {
+    let (a, ids) = analysis(&[("/main.td", text)]);
+    let off = text.rfind(use_text).unwrap() as u32;
+    a.goto_definition(FilePosition::new(ids[0], off.into())).map(|r| usize::from(r.range.start()))
+}
+fn nth(text: &str, pat: &str, n: usize) -> usize { text.match_indices(pat).nth(n).unwrap().0 }
+#[test]
+fn template_argument_beats_outer_defvar() {
+    let t = "defvar width = 8;\nclass Reg<int width> { int w = width; }\n";
+    assert_eq!(def_of(t, "width"), Some(nth(t, "width", 1)), "WITNESS {t:?}: the use of `width` must resolve to the template argument");
+}
+#[test]
+fn field_beats_outer_defvar() {
+    let t = "defvar size = 8;\ndef R { int size = 4; int twice = !add(size, 1); }\n";
+    assert_eq!(def_of(t, "size"), Some(nth(t, "size", 1)), "WITNESS {t:?}: the use of `size` must resolve to the field");
+}
+#[test]
+fn template_argument_beats_global_def() {
+    let t = "def x;\nclass Foo<int x> { int y = x; }\n";
+    assert_eq!(def_of(t, "x;"), Some(nth(t, "x", 1)), "WITNESS {t:?}: the use of `x` must resolve to the template argument");
+}
+#[test]
+fn field_beats_template_argument() {
+    let t = "class Foo<int v> { int v = 1; int w = v; }\n";
+    assert_eq!(def_of(t, "v;"), Some(nth(t, "v", 1)), "WITNESS {t:?}: the use of `v` must resolve to the field");
+}
+#[test]
+fn inner_foreach_variable_beats_outer_one() {
+    let t = "foreach i = [1] in { foreach i = [2] in { def d { int f = i; } } }\n";
+    assert_eq!(def_of(t, "i;"), Some(nth(t, "i =", 1)), "WITNESS {t:?}: the use of `i` must resolve to the inner iterator");
+}
+#[test]
+fn block_defvar_beats_field_of_an_enclosing_record_only_inside_the_block() {
+    let t = "foreach n = [1] in { defvar bits_ = 8; def A { int bits_ = 4; int b = bits_; } }\n";
+    assert_eq!(def_of(t, "bits_;"), Some(nth(t, "bits_", 1)), "WITNESS {t:?}: the use of `bits_` must resolve to the field of A");
+}
+#[test]
+fn name_used_after_its_construct_does_not_resolve() {
+    let t = "foreach k = [1] in { def a { int f = k; } }\ndef b { int g = k; }\n";
+    assert_eq!(def_of(t, "k;"), None, "WITNESS {t:?}: `k` is used after the foreach has ended");
+}
